@@ -204,8 +204,9 @@ Lemma validate_digest_shape o rt hs b bd pd fnd hs5 fnd5 :
   d_hash bd = [] -> (forall p, payload_obj rt b pd = Some p -> d_hash p = []) ->
   validate_digest o rt hs b bd pd true fnd = Ok hs5 fnd5 ->
   fnd5 = fnd /\
-  (hs5 = m_set n_block_digest (format bd) hs \/
-   exists p, payload_obj rt b pd = Some p /\
+  ((hs5 = m_set n_block_digest (format bd) hs /\
+    (((rt =? 32) || m_has n_segment_number (m_set n_block_digest (format bd) hs)) = true \/ payload_obj rt b pd = None)) \/
+   exists p, ((rt =? 32) || m_has n_segment_number (m_set n_block_digest (format bd) hs)) = false /\ payload_obj rt b pd = Some p /\
      hs5 = m_set n_payload_digest (format p) (m_set n_block_digest (format bd) hs)).
 Proof.
   intros Hadd Hcl Hbd Hpd.
@@ -213,13 +214,13 @@ Proof.
   rewrite Hcl, bytes_eqb_refl. cbn [negb]. rewrite Bool.andb_false_r.
   unfold Record.check_digest at 1. rewrite Hbd, Hadd, Bool.orb_true_r. cbn [andb].
   fold (payload_obj rt b pd).
-  destruct ((rt =? 32) || m_has n_segment_number (m_set n_block_digest (format bd) hs)).
-  - intros HH; inversion HH; subst. split; [reflexivity|left; reflexivity].
+  destruct ((rt =? 32) || m_has n_segment_number (m_set n_block_digest (format bd) hs)) eqn:Eseg.
+  - intros HH; inversion HH; subst. split; [reflexivity|left; split; [reflexivity|left; reflexivity]].
   - destruct (payload_obj rt b pd) as [p|] eqn:Ep.
     + assert (Hp : d_hash p = []) by (apply Hpd; reflexivity).
       unfold Record.check_digest. rewrite Hp, Hadd, Bool.orb_true_r. cbn [andb].
-      intros HH; inversion HH; subst. split; [reflexivity|right; exists p; split; reflexivity].
-    + intros HH; inversion HH; subst. split; [reflexivity|left; reflexivity].
+      intros HH; inversion HH; subst. split; [reflexivity|right; exists p; repeat split; reflexivity].
+    + intros HH; inversion HH; subst. split; [reflexivity|left; split; [reflexivity|right; reflexivity]].
 Qed.
 
 Lemma type_field_app_other hs f : bytes_eqb (lower uni_lower (fst f)) s_warc_type = false ->
@@ -327,7 +328,7 @@ Proof.
   assert (HP : is_digest_name n_payload_digest) by (right; reflexivity).
   destruct (defects_add_digest vid n_block_digest (format bd) hs2 Hvid HC2 HB Hbd2 HTne HD2) as (HC3 & HT3 & HR3 & HD3).
   assert (Hrt2 : rt_of hs2 = rt_of hs) by (unfold ValidateProofs.rt_of; rewrite HT2; reflexivity).
-  destruct Hshape5 as [->|(p & _ & ->)].
+  destruct Hshape5 as [[-> _]|(p & _ & _ & ->)].
   - split; [|split; [rewrite HR3; exact Hrt2|rewrite <- Hrt2; exact HRne]].
     apply accepted_any_policy; try assumption. rewrite HR3. exact HRne.
   - assert (Hpd3 : m_has n_payload_digest (m_set n_block_digest (format bd) hs2) = false)
@@ -547,6 +548,259 @@ Theorem built_record_round_trips_without_digests bo o vid rt0 hs content new_id 
   parse_record o (mkst (marshal r ++ rest) tl) [] = URec r None [] (mkst rest tl).
 Proof.
   intros. destruct (built_record_is_valid_without_digests bo o vid rt0 hs content new_id r fnd hs_out d0 d1) as (bd & pd & Hv); try assumption.
+  eapply marshal_then_parse. exact Hv.
+Qed.
+
+(** ** the same, when the reader's header set carries the digest fields the builder added *)
+Definition reader_pd (rt : N) (blk : rblock) (dp : digest) : option digest :=
+  match bk blk with
+  | BHttpReq | BHttpResp => Some (feed dp (bb blk))
+  | BGeneric => if rt =? 4 then Some (feed dp (raw_bytes blk)) else None
+  | _ => None
+  end.
+
+Lemma parse_block_reader_agrees2 bo o rt hsb hsr content fnd blk bd pd fnd1 db dp :
+  o_syntax bo = Fail -> (o_block bo = Fail \/ o_block o = Ignore) ->
+  o_skip_parse o = o_skip_parse bo ->
+  m_get n_content_type hsr = m_get n_content_type hsb ->
+  digest_from_field o hsr n_block_digest = Some db -> digest_from_field o hsr n_payload_digest = Some dp ->
+  parse_block bo rt hsb content fnd = Ok (hsb, blk, bd, pd) fnd1 ->
+  parse_block o rt hsr content [] = Ok (hsr, blk, feed db (raw_bytes blk), reader_pd rt blk dp) [].
+Proof.
+  intros Hsyn Hblk Hskip Hct Hdb Hdp.
+  unfold Record.parse_block. rewrite Hdb, Hdp, Hskip, Hsyn, Hct.
+  destruct (digest_from_field bo hsb n_block_digest) as [d0|]; [|intros HH; discriminate].
+  destruct (digest_from_field bo hsb n_payload_digest) as [d0p|]; [|intros HH; discriminate].
+  cbv zeta. unfold reader_pd.
+  destruct (o_skip_parse bo).
+  { intros HH; inversion HH; subst. unfold raw_bytes; cbn [bk bh bb app]. reflexivity. }
+  destruct (negb (N.land rt 206 =? 0) && _).
+  - destruct (length content <? 4)%nat; [intros HH; discriminate|].
+    destruct (http_header content) as [hb found].
+    destruct found; cbn [site]; [|intros HH; discriminate].
+    cbn [negb andb].
+    destruct (has_prefix s_HTTP hb).
+    all: match goal with |- context [if ?c then Ok _ _ else _] => destruct c eqn:Eok end.
+    all: try (intros HH; inversion HH; subst; unfold raw_bytes; cbn [bk bh bb]; reflexivity).
+    all: destruct Hblk as [Hb|Hb]; rewrite Hb; [cbn [site]; intros HH; discriminate|].
+    all: destruct (o_block bo); cbn [site]; intros HH; inversion HH; subst; unfold raw_bytes; cbn [bk bh bb]; reflexivity.
+  - destruct (rt =? 32).
+    { intros HH; inversion HH; subst. unfold raw_bytes; cbn [bk bh bb app]. reflexivity. }
+    destruct (has_prefix s_app_warcfields _).
+    2: { intros HH; inversion HH; subst. unfold raw_bytes; cbn [bk bh bb app]. reflexivity. }
+    pose proof (parse_fields_quiet field_table uni_lower mime_dec Fail (mkst content TEOF) [] ltac:(discriminate)) as Hq.
+    destruct (HeaderParse.parse_fields field_table uni_lower mime_dec Fail (mkst content TEOF) []) as [[wf s'] bv|e bv] eqn:Ein;
+      cbn [findings_of] in Hq; subst bv; [|intros HH; discriminate].
+    rewrite (parse_fields_strict_ok_everywhere field_table uni_lower mime_dec (o_syntax o) _ _ Ein). cbn [findings_of].
+    intros HH; inversion HH; subst. unfold raw_bytes; cbn [bk bh bb app]. reflexivity.
+Qed.
+
+(** ** records with digest fields.  What the round trip needs from the digest text codec (the
+    base32 / base64 decoders are oracles): the text the builder writes for a digest is read back
+    by newDigest, in whatever default encoding the reader has, as a digest with that declared
+    hash which validates against the same bytes; and it is a clean header value. *)
+Definition codec_ok (e : enc) (d0 : digest) : Prop := forall x,
+  exists d1, new_digest (format (feed d0 x)) e = Some d1 /\ d_fed d1 = [] /\ d_hash d1 <> [] /\ dvalidate H b32_decode b64_decode (feed d1 x) = true.
+Definition digest_text_clean (d0 : digest) : Prop :=
+  forall x n, is_digest_name n -> wf_field tbl uni_lower (key n, format (feed d0 x)).
+
+Lemma m_set_absent n v hs : m_has n hs = false -> m_set n v hs = hs ++ [(key n, v)].
+Proof.
+  intros Hno. assert (Hs : s_has (key n) hs = false) by (rewrite <- m_has_s_has; exact Hno).
+  rewrite m_set_spec. unfold Fields.key.
+  destruct (set_one_value_at_first_position (key n) v hs) as (_ & _ & H3 & _). apply H3. exact Hs.
+Qed.
+
+(* verification of declared, valid digests changes nothing and finds nothing *)
+Lemma validate_digest_valid o rt hs b bd pd cached fnd :
+  m_get n_content_length hs = itoa (Z.of_nat (length (raw_bytes b))) ->
+  d_hash bd <> [] -> dvalidate H b32_decode b64_decode bd = true ->
+  (((rt =? 32) || m_has n_segment_number hs) = true \/
+   forall p, payload_obj rt b pd = Some p -> d_hash p <> [] /\ dvalidate H b32_decode b64_decode p = true) ->
+  validate_digest o rt hs b bd pd cached fnd = Ok hs fnd.
+Proof.
+  intros Hcl Hbd Hbv Hpd. unfold Record.validate_digest. cbv zeta.
+  rewrite Hcl, bytes_eqb_refl. cbn [negb]. rewrite Bool.andb_false_r.
+  unfold Record.check_digest at 1. destruct (d_hash bd) as [|c t] eqn:Eh; [congruence|].
+  rewrite Hbv. cbn [negb]. rewrite Bool.andb_false_r.
+  destruct ((rt =? 32) || m_has n_segment_number hs) eqn:Eseg; [reflexivity|].
+  destruct Hpd as [Hx|Hpd]; [discriminate|].
+  fold (payload_obj rt b pd).
+  destruct (payload_obj rt b pd) as [p|] eqn:Ep; [|reflexivity].
+  destruct (Hpd p eq_refl) as [Hp1 Hp2].
+  unfold Record.check_digest. destruct (d_hash p) as [|c' t'] eqn:Eh'; [congruence|].
+  rewrite Hp2. cbn [negb]. rewrite Bool.andb_false_r. reflexivity.
+Qed.
+
+(** * C01, end to end, with the digest fields the builder adds *)
+Theorem built_record_is_valid_with_digests bo o vid rt0 hs content new_id r fnd hs_out d0 d1 :
+  (vid = 1 \/ vid = 2) -> canonical hs -> (forall f, In f hs -> wf_field tbl uni_lower f) ->
+  m_has n_content_length hs = false -> m_has n_block_digest hs = false -> m_has n_payload_digest hs = false ->
+  m_has n_record_id hs = true -> (rt0 = 0 \/ rt0 = rt_of hs) ->
+  o_spec bo = Fail -> o_unknown bo = Fail -> o_syntax bo = Fail ->
+  (o_block bo = Fail \/ o_block o = Ignore) ->
+  o_add_cl bo = true -> o_add_digest bo = true -> o_fix_wfblock bo = false ->
+  o_skip_parse o = o_skip_parse bo ->
+  new_digest (o_alg bo) (o_enc bo) = Some d0 -> d_hash d0 = [] -> d_fed d0 = [] ->
+  new_digest (o_alg o) (o_enc o) = Some d1 ->
+  codec_ok (o_enc o) d0 -> digest_text_clean d0 ->
+  (Z.of_nat (length content) + 2 <= int64_max)%Z ->
+  build bo vid rt0 hs content new_id = (Ok r fnd, hs_out) ->
+  exists bd pd, valid_record o r bd pd.
+Proof.
+  intros Hvid HC Hwf Hcl Hbdf Hpdf Hid Hrt Hspec Hunk Hsyn Hblk Haddcl Hadd Hfix Hskip Hd0 Hh0 Hf0 Hd1 Hcodec Hclean Hlen.
+  destruct (keys_distinct uni_lower) as (K1 & K2 & K3 & K4 & K5 & K6).
+  destruct (keys_distinct2 uni_lower) as (J1 & J2 & J3 & J4 & J5 & J6 & J7).
+  assert (KT : key n_content_type <> key n_block_digest /\ key n_content_type <> key n_payload_digest) by (split; vm_compute; discriminate).
+  destruct KT as [KT1 KT2].
+  unfold Record.build. cbv zeta. rewrite Haddcl, Hspec, Hunk, Hid. cbn [negb]. rewrite Bool.andb_false_r, Hcl. cbn [negb andb].
+  set (hs2 := m_set n_content_length (itoa (Z.of_nat (length content))) hs).
+  assert (HC2 : canonical hs2) by (apply canon_set; exact HC).
+  assert (Hset : hs2 = hs ++ [(key n_content_length, itoa (Z.of_nat (length content)))]) by (apply m_set_absent; exact Hcl).
+  assert (Hcl2 : m_get n_content_length hs2 = itoa (Z.of_nat (length content))) by apply get_set_same.
+  assert (Hhas2 : m_has n_content_length hs2 = true) by apply (has_set_same tbl uni_lower).
+  assert (Hbd2 : m_has n_block_digest hs2 = false) by (unfold hs2; rewrite (has_set_other uni_lower); auto).
+  assert (Hpd2 : m_has n_payload_digest hs2 = false) by (unfold hs2; rewrite (has_set_other uni_lower); auto).
+  assert (HT2 : type_field uni_lower hs2 = type_field uni_lower hs).
+  { unfold hs2. rewrite type_field_set_absent; [reflexivity|exact Hcl|vm_compute; reflexivity]. }
+  assert (Hwf2 : forall f, In f hs2 -> wf_field tbl uni_lower f).
+  { intros f Hf. rewrite Hset in Hf. apply in_app_or in Hf as [Hf|[<-|[]]]; [apply Hwf; exact Hf|].
+    apply content_length_field_wf. lia. }
+  destruct (validate_header Fail Fail vid hs2 []) as [[rt hs3] fnd0|e fnd0] eqn:Ev; [|intros HH; discriminate].
+  apply strict_ok_inv in Ev; [|exact HC2]. destruct Ev as (-> & -> & -> & HTne & HRne & HD2).
+  assert (Hrt2 : rt_of hs2 = rt_of hs) by (unfold ValidateProofs.rt_of; rewrite HT2; reflexivity).
+  set (rtb := if rt0 =? 0 then rt_of hs2 else rt0).
+  assert (Hrtb : rtb = rt_of hs2).
+  { unfold rtb. destruct Hrt as [->| ->]; [reflexivity|]. rewrite <- Hrt2. destruct (rt_of hs2 =? 0); reflexivity. }
+  destruct (parse_block bo rtb hs2 content []) as [[[[hs4 blk] bd] pd] fnd1|e fnd1] eqn:Ep; [|intros HH; discriminate].
+  destruct (parse_block_strict_keeps _ _ _ _ _ _ _ _ _ _ Hsyn Hfix Ep) as [-> Hraw0].
+  assert (Hdf : digest_from_field bo hs2 n_block_digest = Some d0 /\ digest_from_field bo hs2 n_payload_digest = Some d0).
+  { unfold Record.digest_from_field. rewrite Hbd2, Hpd2, Hd0. split; reflexivity. }
+  destruct Hdf as [Hdf1 Hdf2].
+  destruct (parse_block_shape uni_lower uni_upper time_ok ip_ok uri_ok wid_ok mime_dec H b32_decode b64_decode
+              http_req_ok http_resp_ok _ _ _ _ _ _ _ _ _ _ d0 d0 Hfix Hdf1 Hdf2 Ep) as (Hbd & Hpd & _).
+  assert (Hraw : m_get n_content_length hs2 = itoa (Z.of_nat (length (raw_bytes blk)))) by (rewrite Hraw0; exact Hcl2).
+  assert (Hbdh : d_hash bd = []) by (rewrite Hbd; exact Hh0).
+  (* the payload digest object, when there is one, is the fresh digest fed the payload bytes *)
+  assert (Hpobj : forall p, payload_obj rtb blk pd = Some p ->
+            exists y, p = feed d0 y /\ reader_pd rtb blk d0 = Some (feed d0 y)).
+  { intros p Hp. unfold payload_obj in Hp. unfold reader_pd. destruct (bk blk) eqn:Ek; try discriminate.
+    - destruct (rtb =? 4) eqn:E4; [|discriminate]. rewrite (Hpd eq_refl) in Hp. inversion Hp; subst. eexists; split; reflexivity.
+    - rewrite Hpd in Hp. inversion Hp; subst. eexists; split; reflexivity.
+    - rewrite Hpd in Hp. inversion Hp; subst. eexists; split; reflexivity. }
+  assert (Hpobj0 : forall p, payload_obj rtb blk pd = Some p -> d_hash p = []).
+  { intros p Hp. destruct (Hpobj p Hp) as (y & -> & _). exact Hh0. }
+  destruct (validate_digest bo rtb hs2 blk bd pd true fnd1) as [hs5 fnd2|e fnd2] eqn:Evd; [|intros HH; discriminate].
+  intros HH. inversion HH; subst r fnd hs_out. clear HH.
+  destruct (validate_digest_shape bo rtb hs2 blk bd pd fnd1 hs5 fnd2 Hadd Hraw Hbdh Hpobj0 Evd) as (_ & Hshape5).
+  assert (HB : is_digest_name n_block_digest) by (left; reflexivity).
+  assert (HP : is_digest_name n_payload_digest) by (right; reflexivity).
+  set (hs3 := m_set n_block_digest (format bd) hs2) in *.
+  destruct (defects_add_digest vid n_block_digest (format bd) hs2 Hvid HC2 HB Hbd2 HTne HD2) as (HC3 & HT3 & HR3 & HD3).
+  fold hs3 in HC3, HT3, HR3, HD3.
+  assert (Hset3 : hs3 = hs2 ++ [(key n_block_digest, format bd)]) by (apply m_set_absent; exact Hbd2).
+  assert (Hwf3 : forall f, In f hs3 -> wf_field tbl uni_lower f).
+  { intros f Hf. rewrite Hset3 in Hf. apply in_app_or in Hf as [Hf|[<-|[]]]; [apply Hwf2; exact Hf|].
+    rewrite Hbd. apply Hclean. exact HB. }
+  assert (Hcl3 : m_get n_content_length hs3 = itoa (Z.of_nat (length (raw_bytes blk))) /\ m_has n_content_length hs3 = true).
+  { unfold hs3. rewrite (get_set_other tbl uni_lower), (has_set_other uni_lower) by exact K1. split; [exact Hraw|exact Hhas2]. }
+  assert (Hpd3 : m_has n_payload_digest hs3 = false)
+    by (unfold hs3; rewrite (has_set_other uni_lower); [exact Hpd2|intros E; apply K3; symmetry; exact E]).
+  assert (Hct3 : m_get n_content_type hs3 = m_get n_content_type hs2) by (unfold hs3; apply (get_set_other tbl uni_lower); exact KT1).
+  assert (Hbg3 : m_get n_block_digest hs3 = format bd /\ m_has n_block_digest hs3 = true)
+    by (unfold hs3; split; [apply get_set_same|apply (has_set_same tbl uni_lower)]).
+  (* what the reader makes of the declared block digest *)
+  destruct (Hcodec (raw_bytes blk)) as (db & Hdb & Hdbf & Hdbh & Hdbv).
+  assert (Hfmt : format bd = format (feed d0 (raw_bytes blk))) by (rewrite Hbd; reflexivity).
+  assert (Edb : digest_from_field o hs3 n_block_digest = Some db).
+  { unfold Record.digest_from_field. destruct Hbg3 as [-> ->]. rewrite Hfmt. exact Hdb. }
+  assert (Hseg3 : m_has n_segment_number hs3 = m_has n_segment_number hs2)
+    by (unfold hs3; apply (has_set_other uni_lower); exact K5).
+  destruct Hshape5 as [[-> Hwhy]|(p & Hseg & Hp & ->)].
+  - (* no payload digest was added: revisit / segment, or the block kind has no payload *)
+    exists (feed db (raw_bytes blk)), (reader_pd rtb blk d1).
+    assert (Edp : digest_from_field o hs3 n_payload_digest = Some d1).
+    { unfold Record.digest_from_field. rewrite Hpd3. exact Hd1. }
+    constructor; cbn [r_vtxt r_vid r_type r_fields r_block].
+    + destruct Hvid as [->| ->]; [left|right]; split; reflexivity.
+    + exact Hwf3.
+    + rewrite Hset3. intros E. apply app_eq_nil in E as [_ E]. discriminate.
+    + rewrite Hrtb, <- HR3. apply accepted_any_policy; try assumption. rewrite HR3. exact HRne.
+    + unfold Record.cl_value. destruct Hcl3 as [-> ->]. rewrite atoi_value_itoa by (rewrite Hraw0; lia). reflexivity.
+    + pose proof (parse_block_reader_agrees2 bo o rtb hs2 hs3 content [] blk bd pd fnd1 db d1 Hsyn Hblk Hskip Hct3 Edb Edp Ep) as Hr.
+      rewrite <- Hraw0 in Hr. exact Hr.
+    + apply validate_digest_valid.
+      * destruct Hcl3 as [-> _]. reflexivity.
+      * cbn [feed d_hash]. exact Hdbh.
+      * exact Hdbv.
+      * destruct Hwhy as [Hw|Hw]; [left; exact Hw|right].
+        intros q Hq. exfalso. unfold payload_obj in Hw, Hq. unfold reader_pd in Hq.
+        destruct (bk blk) eqn:Ek; try discriminate.
+        -- destruct (rtb =? 4) eqn:E4; [|discriminate]. rewrite (Hpd eq_refl) in Hw. discriminate.
+        -- rewrite Hpd in Hw. discriminate.
+        -- rewrite Hpd in Hw. discriminate.
+  - (* block digest and payload digest *)
+    destruct (Hpobj p Hp) as (y & -> & Hrp).
+    destruct (Hcodec y) as (dp & Hdp & Hdpf & Hdph & Hdpv).
+    set (hs4 := m_set n_payload_digest (format (feed d0 y)) hs3).
+    destruct (defects_add_digest vid n_payload_digest (format (feed d0 y)) hs3 Hvid HC3 HP Hpd3 HT3 HD3) as (HC4 & HT4 & HR4 & HD4).
+    fold hs4 in HC4, HT4, HR4, HD4.
+    assert (Hset4 : hs4 = hs3 ++ [(key n_payload_digest, format (feed d0 y))]) by (apply m_set_absent; exact Hpd3).
+    assert (Hcl4 : m_get n_content_length hs4 = itoa (Z.of_nat (length (raw_bytes blk))) /\ m_has n_content_length hs4 = true).
+    { unfold hs4. rewrite (get_set_other tbl uni_lower), (has_set_other uni_lower) by exact K2. exact Hcl3. }
+    assert (Hct4 : m_get n_content_type hs4 = m_get n_content_type hs2).
+    { unfold hs4. rewrite (get_set_other tbl uni_lower) by exact KT2. exact Hct3. }
+    assert (Edb4 : digest_from_field o hs4 n_block_digest = Some db).
+    { unfold Record.digest_from_field, hs4. rewrite (has_set_other uni_lower), (get_set_other tbl uni_lower) by exact K3. exact Edb. }
+    assert (Edp4 : digest_from_field o hs4 n_payload_digest = Some dp).
+    { unfold Record.digest_from_field, hs4. rewrite (has_set_same tbl uni_lower), get_set_same. exact Hdp. }
+    assert (Hseg4 : m_has n_segment_number hs4 = m_has n_segment_number hs3)
+      by (unfold hs4; apply (has_set_other uni_lower); exact K6).
+    exists (feed db (raw_bytes blk)), (reader_pd rtb blk dp).
+    constructor; cbn [r_vtxt r_vid r_type r_fields r_block].
+    + destruct Hvid as [->| ->]; [left|right]; split; reflexivity.
+    + intros f Hf. rewrite Hset4 in Hf. apply in_app_or in Hf as [Hf|[<-|[]]]; [apply Hwf3; exact Hf|].
+      apply Hclean. exact HP.
+    + rewrite Hset4. intros E. apply app_eq_nil in E as [_ E]. discriminate.
+    + rewrite Hrtb, <- HR3, <- HR4. apply accepted_any_policy; try assumption. rewrite HR4, HR3. exact HRne.
+    + unfold Record.cl_value. destruct Hcl4 as [-> ->]. rewrite atoi_value_itoa by (rewrite Hraw0; lia). reflexivity.
+    + pose proof (parse_block_reader_agrees2 bo o rtb hs2 hs4 content [] blk bd pd fnd1 db dp Hsyn Hblk Hskip Hct4 Edb4 Edp4 Ep) as Hr.
+      rewrite <- Hraw0 in Hr. exact Hr.
+    + apply validate_digest_valid.
+      * destruct Hcl4 as [-> _]. reflexivity.
+      * cbn [feed d_hash]. exact Hdbh.
+      * exact Hdbv.
+      * right. intros q Hq.
+        assert (Eq : q = feed dp y).
+        { unfold payload_obj in Hq. unfold reader_pd in Hq, Hrp. destruct (bk blk) eqn:Ek; try discriminate.
+          - destruct (rtb =? 4) eqn:E4; [|discriminate]. inversion Hrp as [Hy]. inversion Hq. 
+            assert (Hyy : y = raw_bytes blk). { unfold feed in Hy. inversion Hy as [Hz]. rewrite Hf0 in Hz. exact (eq_sym Hz). }
+            rewrite Hyy. reflexivity.
+          - inversion Hrp as [Hy]. inversion Hq.
+            assert (Hyy : y = bb blk). { unfold feed in Hy. inversion Hy as [Hz]. rewrite Hf0 in Hz. exact (eq_sym Hz). }
+            rewrite Hyy. reflexivity.
+          - inversion Hrp as [Hy]. inversion Hq.
+            assert (Hyy : y = bb blk). { unfold feed in Hy. inversion Hy as [Hz]. rewrite Hf0 in Hz. exact (eq_sym Hz). }
+            rewrite Hyy. reflexivity. }
+        subst q. split; [cbn [feed d_hash]; exact Hdph|exact Hdpv].
+Qed.
+
+Theorem built_record_round_trips_with_digests bo o vid rt0 hs content new_id r fnd hs_out d0 d1 rest tl :
+  (vid = 1 \/ vid = 2) -> canonical hs -> (forall f, In f hs -> wf_field tbl uni_lower f) ->
+  m_has n_content_length hs = false -> m_has n_block_digest hs = false -> m_has n_payload_digest hs = false ->
+  m_has n_record_id hs = true -> (rt0 = 0 \/ rt0 = rt_of hs) ->
+  o_spec bo = Fail -> o_unknown bo = Fail -> o_syntax bo = Fail ->
+  (o_block bo = Fail \/ o_block o = Ignore) ->
+  o_add_cl bo = true -> o_add_digest bo = true -> o_fix_wfblock bo = false ->
+  o_skip_parse o = o_skip_parse bo ->
+  new_digest (o_alg bo) (o_enc bo) = Some d0 -> d_hash d0 = [] -> d_fed d0 = [] ->
+  new_digest (o_alg o) (o_enc o) = Some d1 ->
+  codec_ok (o_enc o) d0 -> digest_text_clean d0 ->
+  (Z.of_nat (length content) + 2 <= int64_max)%Z ->
+  build bo vid rt0 hs content new_id = (Ok r fnd, hs_out) ->
+  parse_record o (mkst (marshal r ++ rest) tl) [] = URec r None [] (mkst rest tl).
+Proof.
+  intros. destruct (built_record_is_valid_with_digests bo o vid rt0 hs content new_id r fnd hs_out d0 d1) as (bd & pd & Hv); try assumption.
   eapply marshal_then_parse. exact Hv.
 Qed.
 
